@@ -170,9 +170,9 @@ func jobSig(j *opJob) string {
 // reusePairBudget bounds the number of (predecessor, request) pairs per check and tier.
 func reusePairBudget(c *hx.Checker) int {
 	if c.Tier == "thorough" {
-		return 2000000
+		return 6000000
 	}
-	return 120000
+	return 1500000
 }
 
 // runReuseJobs: operator-instance histories. Jobs of the same node (same operator, same attributes) form a
@@ -210,7 +210,7 @@ func runReuseJobs(c *hx.Checker, jobs []opJob) {
 	spent, bigJobs := 0, 0
 	for _, k := range bySize {
 		n := len(groups[k])
-		if n <= 12 || (n <= 400 && spent+n*(n-1) <= budget/2) {
+		if n <= 12 || (n <= 600 && spent+n*(n-1) <= budget/2) {
 			full[k] = true
 			spent += n * (n - 1)
 		} else {
